@@ -3,6 +3,8 @@
 package cl
 
 import (
+	"strings"
+
 	"github.com/ohler55/slip"
 )
 
@@ -104,5 +106,5 @@ func (f *FindSymbol) Call(s *slip.Scope, args slip.List, depth int) (result slip
 	default:
 		status = slip.Symbol(":inherited")
 	}
-	return slip.Values{slip.Symbol(so), status}
+	return slip.Values{slip.Symbol(strings.ToLower(string(so))), status}
 }
